@@ -151,8 +151,9 @@ def run(ctx, rep):
                     for c in COMP:
                         n += 1
                         key = "C02/%s[%s].%s/%s" % (step_f, sname, c, cname)
-                        got = A.reduce(A.scalar(tm.getf(sv, "RenNrenCo2", c)))
-                        w = A.reduce(A.scalar(tm.mul(tm.getf(tm.getf(we, "WeightedEnergy", tot_f), "RenNrenCo2", c), share)))
+                        # both sides are compared where the entry exists (the value of an absent key is meaningless)
+                        got = A.assume_conditions(A.reduce(A.scalar(tm.getf(sv, "RenNrenCo2", c))), [sp])
+                        w = A.assume_conditions(A.reduce(A.scalar(tm.mul(tm.getf(tm.getf(we, "WeightedEnergy", tot_f), "RenNrenCo2", c), share))), [sp])
                         if got == w and sp is up:
                             rep.discharged(key, "we.%s[%s].%s = we.%s * share of service use" % (step_f, sname, c, tot_f))
                         else:
